@@ -143,7 +143,9 @@ def _unimodular(rs, g):
 def realise(prob, family, pseed):
     """(K, B) with B v = mu K v having exactly the abstract spectrum on the active amplitudes.
     P = [[Q, 0], [C, I]] over (both, konly); K = P' Dk P, B = s P' diag(Db, 0) P: B's konly columns are
-    null, K couples them.  All entries are small integers (times the power-of-two scale): exact in binary64."""
+    null, K couples them.  "bonly" amplitudes (no stiffness) get a B column coupled to the loaded ones: they do
+    not change the pencil reduced by the null pattern of K.  All entries are small integers (times the
+    power-of-two scale): exact in binary64."""
     rs = np.random.RandomState(pseed % (2 ** 31))
     n, cls = prob["n"], prob["cls"]
     both = [i for i in range(n) if cls[i] == "both"]
@@ -174,6 +176,14 @@ def realise(prob, family, pseed):
     B[np.ix_(idx, idx)] = Br
     if r and np.any(B[:, konly] != 0):
         raise AssertionError("stiffness-only amplitude received a load column")
+    bonly = [i for i in range(n) if cls[i] == "bonly"]
+    for b in bonly:
+        x = rs.randint(-1, 2, size=g).astype(float)
+        if not x.any():
+            x[0] = 1.0
+        B[b, both] = float(prob["s"]) * x
+        B[both, b] = float(prob["s"]) * x
+        B[b, b] = float(prob["s"]) * (64.0 if family == "freq" else float(rs.choice([-3, -2, 2, 3])))
     return K, B
 
 
@@ -201,11 +211,25 @@ class Impl:
             self._cone = Driven
         return self._cone
 
-    def call(self, o, K, B, panel=None):
-        """returns (vals, vecs); K, B dense arrays or sparse matrices of the size the wrapper sees"""
+    def call(self, o, K, B, panel=None, form="csr"):
+        """returns (vals, vecs); K, B dense arrays or sparse matrices of the size the wrapper sees; `form`: the
+        sparse container the analysis functions are handed (csr / csc / coo); self.intact tells afterwards
+        whether the handed objects still hold what was handed over"""
         api = o["api"]
         K = csr_matrix(K)
         B = csr_matrix(B)
+        self.intact = True
+        if api in ("lb", "freq"):
+            Kh, Bh = K.asformat(form).copy(), B.asformat(form).copy()
+            try:
+                if api == "lb":
+                    return self.lb_fn(Kh, Bh, tol=0, sparse_solver=o["sparse"], silent=True, num_eigvalues=o["num"])
+                return self.freq_fn(Kh, Bh, tol=0, sparse_solver=o["sparse"], silent=True, sort=o["sort"],
+                                    reduced_dof=o["reduced"], num_eigvalues=o["num"])
+            finally:
+                self.intact = bool(Kh.format == form and Bh.format == form and Kh.shape == K.shape
+                                   and Bh.shape == B.shape and (csr_matrix(Kh) != K).nnz == 0
+                                   and (csr_matrix(Bh) != B).nnz == 0)
         if api == "lb":
             return self.lb_fn(K, B, tol=0, sparse_solver=o["sparse"], silent=True, num_eigvalues=o["num"])
         if api == "freq":
@@ -256,32 +280,38 @@ class Impl:
         raise ValueError(api)
 
 
-def observe(impl, o, K, B, panel=None):
+def observe(impl, o, K, B, panel=None, form="csr"):
     """one call of the real wrapper -> (obs record, vals, vecs)"""
     sink = io.StringIO()
     try:
         with warnings.catch_warnings(), contextlib.redirect_stdout(sink), np.errstate(all="ignore"):
             warnings.simplefilter("ignore")
-            vals, vecs = impl.call(o, K, B, panel=panel)
+            vals, vecs = impl.call(o, K, B, panel=panel, form=form)
     except Exception as e:                                         # an exception is an event too
         return dict(exc=type(e).__name__, msg=str(e)[:200], nvals=0, nr=0, nc=0, vals=[], nzrows=[], res=[],
-                    peer=[]), None, None
+                    peer=[], intact=getattr(impl, "intact", True)), None, None
     vals = np.asarray(vals)
     vecs = np.asarray(vecs)
     if vals.ndim != 1 or vecs.ndim != 2:
         return dict(exc="BadShape", msg="%s %s" % (vals.shape, vecs.shape), nvals=0, nr=0, nc=0, vals=[],
-                    nzrows=[], res=[], peer=[]), None, None
+                    nzrows=[], res=[], peer=[], intact=getattr(impl, "intact", True)), None, None
     nz = np.nonzero(np.any(vecs != 0, axis=1))[0]
     obs = dict(exc="", nvals=int(vals.shape[0]), nr=int(vecs.shape[0]), nc=int(vecs.shape[1]),
-               vals=[cplx(z) for z in vals], nzrows=[int(i) + 1 for i in nz], res=[], peer=[])
+               vals=[cplx(z) for z in vals], nzrows=[int(i) + 1 for i in nz], res=[], peer=[],
+               intact=getattr(impl, "intact", True))
     return obs, vals, vecs
 
 
-def residuals(o, K, B, vals, vecs):
-    """observed || (K + lambda B) v || resp. || K v - omega^2 B v || with its scale 2^-30 (||K|| + |.| ||B||) ||v||"""
+def residuals(o, K, B, vals, vecs, cls=None):
+    """observed || (K + lambda B) v || resp. || K v - omega^2 B v || with its scale 2^-30 (||K|| + |.| ||B||) ||v||,
+    taken on the rows of the amplitudes that carry stiffness (the pencil reduced by the null pattern of K: on a
+    load-/mass-only amplitude the equation cannot hold for a mode that is zero there)"""
     K = csr_matrix(K)
     B = csr_matrix(B)
     q = o["pos"]
+    rows = None
+    if cls is not None and any(c == "bonly" for c in cls):
+        rows = [i for i, c in enumerate(cls) if c in ("both", "konly")]
     nK = float(np.sqrt(K.multiply(K).sum()))
     nB = float(np.sqrt(B.multiply(B).sum()))
     out = []
@@ -298,6 +328,8 @@ def residuals(o, K, B, vals, vecs):
             else:
                 fac = z * z
                 r = K @ v - fac * (B @ v)
+            if rows is not None:
+                r = r[rows]
             rn = float(np.linalg.norm(r))
             vn = float(np.linalg.norm(v))
             bound = 2.0 ** -30 * (nK + abs(fac) * nB) * vn
@@ -344,12 +376,15 @@ def zero_sum_columns(B, cls):
     return [i + 1 for i in range(Bd.shape[0]) if cls[i] == "both" and cs[i] == 0]
 
 
+FORMS = ("csr", "csc", "coo")
+
+
 def make_event(eid, impl, prob, o, K, B, gen, panel=None, want_raw=False):
     """call + record.  prob: abstract problem (python, Fractions); returns the event dict"""
-    obs, vals, vecs = observe(impl, o, K, B, panel=panel)
+    obs, vals, vecs = observe(impl, o, K, B, panel=panel, form=gen.get("form", "csr"))
     cert = []
     if obs["exc"] == "":
-        obs["res"] = residuals(o, K, B, vals, vecs)
+        obs["res"] = residuals(o, K, B, vals, vecs, prob["cls"])
         cert = certificate(o, [x * prob["s"] for x in prob["sp"]], vals)
     e = dict(id=eid, p=dict(n=prob["n"], cls=prob["cls"], sp=[rat(x) for x in prob["sp"]], s=rat(prob["s"]),
                             zs=zero_sum_columns(B, prob["cls"])),
@@ -367,7 +402,7 @@ def _lattice_chunk(rng):
     out = []
     for (eid, prob, opts, pseed, gid) in tasks[rng[0]:rng[1]]:
         K, B = realise(prob, family, pseed)
-        gen = dict(kind="lattice", family=family, pseed=pseed, group="L%d" % gid,
+        gen = dict(kind="lattice", family=family, pseed=pseed, group="L%d" % gid, form=FORMS[eid % 3],
                    p=dict(n=prob["n"], cls=prob["cls"], sp=[frac_pair(x) for x in prob["sp"]], s=frac_pair(prob["s"])))
         out.append(make_event(eid, impl, prob, opts, K, B, gen))
     return out
@@ -410,17 +445,16 @@ def attach_peers(events):
 # 4. direction B: matrices produced by the package and seeded random pairs
 
 def classify(K, B):
-    """abstract classes from the stored structure (exact): null / both / konly; None if B has a column
-    where K has none (outside the properties' quantifier)"""
+    """abstract classes from the stored structure (exact): null / both / konly (stiffness, B column null) /
+    bonly (B column on an amplitude without stiffness)"""
     K = csr_matrix(K)
     B = csr_matrix(B)
     kn = np.zeros(K.shape[0], dtype=bool)
     bn = np.zeros(K.shape[0], dtype=bool)
     kn[np.unique(K.nonzero()[1])] = True
     bn[np.unique(B.nonzero()[1])] = True
-    if np.any(bn & ~kn):
-        return None
-    return ["both" if (kn[i] and bn[i]) else ("konly" if kn[i] else "null") for i in range(K.shape[0])]
+    return ["both" if (kn[i] and bn[i]) else ("konly" if kn[i] else ("bonly" if bn[i] else "null"))
+            for i in range(K.shape[0])]
 
 
 def reference_spectrum(K, B, cls):
@@ -428,7 +462,7 @@ def reference_spectrum(K, B, cls):
     syevd through numpy.linalg.eigvalsh); values below 2^-36 of the largest are structural zeros.
     Returned ascending, as exact Fractions of the doubles: the abstraction of the input, judged with
     tolerance 2^-30 max|mu| by the trace specification."""
-    act = [i for i, c in enumerate(cls) if c != "null"]
+    act = [i for i, c in enumerate(cls) if c in ("both", "konly")]
     Ka = csr_matrix(K)[act, :][:, act].toarray()
     Ba = csr_matrix(B)[act, :][:, act].toarray()
     Ka = 0.5 * (Ka + Ka.T)
@@ -486,16 +520,18 @@ def panel_matrices(d, family):
     return K, B
 
 
-def random_pair(rs, family, n, nnull, nkonly, regime):
+def random_pair(rs, family, n, nnull, nkonly, regime, nbonly=0):
     """seeded random symmetric pair: K positive definite on a random subset, others null; B symmetric
-    (lb: indefinite, with `nkonly` null columns inside the subset; freq: positive definite)"""
+    (lb: indefinite, freq: positive definite on its own support) with `nkonly` null columns inside the subset
+    and `nbonly` (<= nnull) columns on amplitudes without stiffness: the null pattern of B is equal to / a
+    subset of / a superset of / neither of K's"""
     idx = rs.permutation(n)
     act = np.sort(idx[:n - nnull])
     m = len(act)
     A = rs.randn(m, m)
     Ka = A.T @ A / m + np.diag(0.5 + rs.rand(m))
+    g = m - nkonly
     if family == "lb":
-        g = m - nkonly
         S = rs.randn(g, g)
         w = np.concatenate([-np.abs(rs.randn(g - g // 3)), np.abs(rs.randn(g // 3))]) if g >= 3 else -np.abs(rs.randn(g)) - 0.1
         Qm, _ = np.linalg.qr(S)
@@ -503,13 +539,25 @@ def random_pair(rs, family, n, nnull, nkonly, regime):
         Ba = np.zeros((m, m))
         sel = np.sort(rs.permutation(m)[:g])
         Ba[np.ix_(sel, sel)] = 0.5 * (Bg + Bg.T)
-    else:
+    elif nkonly == 0:
         S = rs.randn(m, m)
         Ba = S.T @ S / m + np.diag(0.2 + rs.rand(m))
+    else:
+        S = rs.randn(g, g)
+        Ba = np.zeros((m, m))
+        sel = np.sort(rs.permutation(m)[:g])
+        Ba[np.ix_(sel, sel)] = S.T @ S / g + np.diag(0.2 + rs.rand(g))
     K = np.zeros((n, n))
     B = np.zeros((n, n))
     K[np.ix_(act, act)] = 0.5 * (Ka + Ka.T)
     B[np.ix_(act, act)] = Ba
+    if nbonly:
+        loaded = [int(i) for i in act if B[i, i] != 0]
+        for b in np.sort(idx[n - nnull:])[:nbonly]:
+            x = 0.1 * rs.randn(len(loaded))
+            B[b, loaded] = x
+            B[loaded, b] = x
+            B[b, b] = 3.0 if family == "freq" else -0.3
     if family == "lb":
         # place the reference load: most negative mu at -1/lam_min, lam_min in the regime (> 1) or not
         cls = classify(K, B)
@@ -583,7 +631,7 @@ def gen_matrices(gen):
         return K, B * gen["scale"]
     if gen["kind"] == "random":
         rs = np.random.RandomState(gen["rseed"])
-        K, B = random_pair(rs, fam, gen["n"], gen["nnull"], gen["nkonly"], gen["regime"])
+        K, B = random_pair(rs, fam, gen["n"], gen["nnull"], gen["nkonly"], gen["regime"], gen.get("nbonly", 0))
         return K, B * gen["scale"]
     raise ValueError(gen["kind"])
 
